@@ -12,7 +12,7 @@ package main
 //       - "<local>" for a local identifier, "<const>" for a literal, "=<text>" for a string literal in the
 //         security-scheme switch, "<make>" for `make(…)`, "<call>" for other calls on non-source values;
 //   * fields tagged `json:"-"` (Extensions) are skipped;
-//   * `<fn>Assigned` lists (ToV3SchemaRef, FromV3SchemaRef): the JSON keys of the fields of the destination
+//   * `<fn>Assigned` lists (ToV3SchemaRef, FromV3SchemaRef, ToV3Operation, FromV3Operation): the JSON keys of the fields of the destination
 //     variable that statements of the function assign outside the literal (`v.F = …`, `v.F, _ = …`,
 //     `v.F[k] = …`), in source order without repetition — the typed fields (discriminator, items, …).
 
@@ -380,6 +380,8 @@ func extractCopyTables(repo string) (string, error) {
 		{"fromV3FileTable", c.litTable("FromV3SchemaRef", "openapi2.Parameter", "schema.Value", "openapi3.Schema")},
 		{"toV3FlowTable", c.litTable("ToV3SecurityScheme", "openapi3.OAuthFlow", "securityScheme", "openapi2.SecurityScheme")},
 		{"fromV3SecTable", c.secBackTable()},
+		{"toV3OpTable", c.litTable("ToV3Operation", "openapi3.Operation", "operation", "openapi2.Operation")},
+		{"fromV3OpTable", c.litTable("FromV3Operation", "openapi2.Operation", "operation", "openapi3.Operation")},
 	}
 	var b strings.Builder
 	b.WriteString("-- generated by go/cmd/extract (table CopyTables) from openapi2conv/openapi2_conv.go — do not edit\n")
@@ -403,6 +405,8 @@ func extractCopyTables(repo string) (string, error) {
 	}{
 		{"toV3SchemaAssigned", c.assignedFields("ToV3SchemaRef", "v3Schema", "openapi3.Schema")},
 		{"fromV3SchemaAssigned", c.assignedFields("FromV3SchemaRef", "v2Schema", "openapi2.Schema")},
+		{"toV3OpAssigned", c.assignedFields("ToV3Operation", "doc3", "openapi3.Operation")},
+		{"fromV3OpAssigned", c.assignedFields("FromV3Operation", "result", "openapi2.Operation")},
 	} {
 		fmt.Fprintf(&b, "def %s : List String := [", t.name)
 		for i, k := range t.keys {
